@@ -503,8 +503,8 @@ func c12RandEngine(rng *Rng, malformed bool) {
 	runOp(line)
 }
 
-// c12Long: a long chain (length n) registered through the engine, scripts drawn so that the wrap
-// region of the int8 index is reached.
+// c12Long: a long chain (length n) registered through the engine, scripts drawn so that the int8
+// index reaches MaxInt8 (where it used to wrap, F11, and now saturates).
 func c12Long(rng *Rng, n int, mode int) {
 	scs := make([]string, n)
 	for i := range scs {
@@ -546,7 +546,7 @@ func genC12(tier string, rng *Rng) {
 		maxLen, maxChainDirect = 7, 7
 		nestD3, nRand, nLong, nOver = 0, 400000, 40000, 1500
 	}
-	// the witnesses of the recorded findings, first
+	// the F11 regression chain and the witness of use-after-group, first
 	w := make([]string, 62)
 	for i := range w {
 		w[i] = "nn"
@@ -596,7 +596,7 @@ func genC12(tier string, rng *Rng) {
 			return "n"
 		})
 	}
-	// 3. long chains into the wrap region (F11) and just below it
+	// 3. long chains into the saturation region of the index (F11 regression) and just below it
 	for i := 0; i < nLong; i++ {
 		n := 30 + rng.Intn(33)
 		c12Long(rng, n, rng.Intn(4))
